@@ -129,10 +129,18 @@ func c13BlockKind(state string, blk []byte) string {
 
 // c13Dump lists the goroutines that belong to the traversal under test.
 func c13Dump(buf *[]byte) []c13GInfo {
+	l, _ := c13DumpU(buf)
+	return l
+}
+
+// c13DumpU also says whether the dump contains a goroutine whose stack the runtime could not print
+// (then nothing can be concluded from the absence of a traversal goroutine).
+func c13DumpU(buf *[]byte) ([]c13GInfo, bool) {
 	for {
 		n := runtime.Stack(*buf, true)
 		if n < len(*buf) {
-			return c13ParseDump((*buf)[:n])
+			b := (*buf)[:n]
+			return c13ParseDump(b), bytes.Contains(b, []byte("stack unavailable"))
 		}
 		*buf = make([]byte, 2*len(*buf))
 	}
@@ -292,6 +300,7 @@ type c13Run struct {
 	Done     bool     `json:"done"`
 	Deadlock bool     `json:"deadlock,omitempty"`
 	Stuck    string   `json:"stuck,omitempty"`
+	Starved  string   `json:"starved,omitempty"` // could not be judged (machine overloaded): skipped, counted
 	Leftover int      `json:"leftover,omitempty"` // traversal goroutines still alive when walk returned
 	MaxRun   int      `json:"maxrun"`
 	OverBy   int      `json:"overby,omitempty"`
@@ -365,6 +374,9 @@ func c13RunOne(g c13Graph, errAt map[int]bool, choose c13Chooser, maxSteps int) 
 		if run.Deadlock || run.Stuck != "" {
 			wait = 100 * time.Millisecond // already known to be wedged
 		}
+		if run.Starved != "" {
+			wait = 20 * time.Second
+		}
 		dl := time.Now().Add(wait)
 		var left []c13GInfo
 		for time.Now().Before(dl) {
@@ -378,7 +390,7 @@ func c13RunOne(g c13Graph, errAt map[int]bool, choose c13Chooser, maxSteps int) 
 			c13Leaked[gi.gid] = true
 		}
 		c13LeakMu.Unlock()
-		if run.Stuck == "" && !run.Deadlock {
+		if run.Stuck == "" && !run.Deadlock && run.Starved == "" {
 			run.Stuck = "cleanup: traversal goroutines never finished"
 		}
 	}
@@ -389,6 +401,7 @@ func c13RunOne(g c13Graph, errAt map[int]bool, choose c13Chooser, maxSteps int) 
 		var mDone bool
 		deadline := time.Now().Add(10 * time.Second) // generous: the machine may be heavily loaded; a real wedge is rare
 		spins := 0
+		deadConfirm := 0
 		// cheap wait first: the released goroutine normally reaches its next yield within microseconds
 		for i := 0; i < 300; i++ {
 			s.mu.Lock()
@@ -407,9 +420,14 @@ func c13RunOne(g c13Graph, errAt map[int]bool, choose c13Chooser, maxSteps int) 
 			}
 			mDone = s.mDone
 			s.mu.Unlock()
-			dump = c13Dump(&buf)
-			quiet := true
+			var uncertain bool
+			dump, uncertain = c13DumpU(&buf)
+			quiet := !uncertain
+			mSeen := false
 			for _, gi := range dump {
+				if gi.gid == s.mGid {
+					mSeen = true
+				}
 				if _, ok := reg[gi.gid]; ok {
 					continue
 				}
@@ -417,6 +435,24 @@ func c13RunOne(g c13Graph, errAt map[int]bool, choose c13Chooser, maxSteps int) 
 					quiet = false
 					break
 				}
+			}
+			// the caller goroutine exists from the start: until it has set mDone it must be visible (parked, blocked or
+			// running); it is invisible for a moment before it enters c13CallWalk and after it has left it
+			if quiet && !mSeen && !mDone {
+				quiet = false
+			}
+			// "nobody can move" is only believed when seen three times in a row
+			if quiet && !mDone && len(reg) == 0 {
+				s.mu.Lock()
+				nreg := len(s.parked)
+				s.mu.Unlock()
+				if nreg == 0 && deadConfirm < 3 {
+					deadConfirm++
+					quiet = false
+					time.Sleep(300 * time.Microsecond)
+				}
+			} else if quiet {
+				deadConfirm = 0
 			}
 			if quiet {
 				// the M goroutine leaves the dump only after it has set mDone; re-read to be sure
@@ -436,10 +472,22 @@ func c13RunOne(g c13Graph, errAt map[int]bool, choose c13Chooser, maxSteps int) 
 			}
 			if time.Now().After(deadline) {
 				var st []string
+				starved := true
 				for _, gi := range dump {
 					if _, ok := reg[gi.gid]; !ok && !gi.blocked {
 						st = append(st, fmt.Sprintf("g%d[%s]", gi.gid, gi.state))
+						if gi.state != "running" && gi.state != "runnable" {
+							starved = false // waiting for something the scheduler does not know: a real wedge
+						}
 					}
+				}
+				if starved {
+					// every goroutine that kept the traversal from settling was runnable for 10 s: the machine is
+					// overloaded (or the code spins; the free-running oracle decides that): cannot be judged
+					run.Starved = "no quiescence: " + strings.Join(st, ",")
+					run.Deadlock = false
+					finish()
+					return c13Finalize(s, run)
 				}
 				run.Stuck = "no quiescence: " + strings.Join(st, ",")
 				finish()
